@@ -47,10 +47,16 @@ from __future__ import annotations
 import gen_c05 as G
 
 
+# set by harness/c20.py from a behavioural probe of the tree under test (True from /repo 82e31a4 on)
+ALIAS_SEES_CLASS_SCOPE = True
+
+
 class Ctx(object):
     def __init__(self):
         self.nok = []          # reasons why the desugared program is not equivalent (case becomes O-only)
         self.in_class = 0      # lexical classDef nesting depth
+        self.direct_class = False   # the statement being rendered sits directly in a class body (no def in between)
+        self.in_func = 0       # lexical def nesting depth
         self.features = set()
 
 
@@ -319,7 +325,11 @@ def r_stmt(s, ind, out, ctx, prefix="", tparams=None, suffix="", after_head=None
         out.append(ind + "%sdef %s%s(%s)%s:" % (prefix, s[1], r_tparams(tparams), _args_text(s[2]), ret) + suffix)
         if after_head:
             out.append(I + after_head)
+        old_direct, ctx.direct_class = ctx.direct_class, False
+        ctx.in_func += 1
         body = r_body(s[3], I, out, ctx)
+        ctx.in_func -= 1
+        ctx.direct_class = old_direct
         return [["at", line, ["funcDef", s[1], map_args(s[2], D), body, [D(d) for d in s[4]], None if s[5] is None else D(s[5])]]]
     if k == "classDef":
         for d in s[4]:
@@ -328,7 +338,9 @@ def r_stmt(s, ind, out, ctx, prefix="", tparams=None, suffix="", after_head=None
         bases = "(%s)" % ", ".join(X(b) for b in s[2]) if s[2] else ""
         out.append(ind + "class %s%s%s:" % (s[1], r_tparams(tparams), bases) + suffix)
         ctx.in_class += 1
+        old_direct, ctx.direct_class = ctx.direct_class, True
         body = r_body(s[3], I, out, ctx)
+        ctx.direct_class = old_direct
         ctx.in_class -= 1
         return [["at", line, ["classDef", s[1], [D(b) for b in s[2]], body, [D(d) for d in s[4]]]]]
     if k == "for":
@@ -420,6 +432,17 @@ def r_stmt(s, ind, out, ctx, prefix="", tparams=None, suffix="", after_head=None
         # `[value for (tp,..) in () if bound if ..]`: new scope hiding class scopes, stores of the parameters, loads of the
         # bounds, load of the value (the analysis loads the bounds before it stores the parameters: the same unless a bound
         # reads a parameter), then the alias name is stored outside
+        if ctx.direct_class and ALIAS_SEES_CLASS_SCOPE:
+            # /repo 82e31a4: the alias scope of a `type` statement DIRECTLY in a class body keeps the class scopes visible
+            # (`_NewScopeCtx(include_class_scopes=True)`), which a comprehension scope does not.  Without type parameters
+            # and outside any def (no deferred loads, which clone the top scope) the new scope stays empty, so value and
+            # alias resolve exactly like `value` as an expression statement of the class body followed by `n = _K`.
+            # With parameters (a scope that holds them AND sees the class) the model has no construct: O-only.
+            if s[2] or ctx.in_func:
+                ctx.nok.append("typealias-in-class-body")
+            else:
+                ctx.features.add("typealias-class-direct")
+                return [["at", line, ["expr", D(s[3])]], ["at", line, ["assign", [["name", s[1]]], ["const"]]]]
         tgt = ["tuple", [["name", n] for n, b in s[2]]]
         return [["at", line, ["expr", ["listComp", D(s[3]), [[tgt, ["tuple", []], [D(b) for b in bounds]]]]]],
                 ["at", line, ["assign", [["name", s[1]]], ["const"]]]]
